@@ -36,7 +36,8 @@ fn material(s: &Scenario) -> Option<Material> {
             Some(Material {
                 pair: StatePair { files: laid.iter().map(|l| (l.path.clone(), None, Some(l.text.clone()), None)).collect() },
                 mode: if c.mode % 3 == 2 { Some(DiffMode { unified: 3, kind: 1, algo: 0, renames: false }) } else { None },
-                scan_paths: laid.iter().map(|l| l.path.clone()).collect(),
+                // mode 1 is the interactive scan of the whole tree (no path arguments)
+                scan_paths: if c.mode % 3 == 1 { vec![] } else { laid.iter().map(|l| l.path.clone()).collect() },
                 has_scripts,
             })
         }
@@ -107,7 +108,23 @@ fn permute_sections(diff: &str, seed: u64) -> Option<String> {
 }
 
 pub fn check(c: &DetCase, probe: &Probe) -> Verdict {
-    let Some(m) = material(&c.scenario) else { return Verdict::Unspecified("generated source is not accepted by the language's own grammar") };
+    // in half of the rule-mix cases the script rules are dropped, so that the runs started from
+    // sub-directories (only meaningful without script paths) happen for this scenario too
+    let stripped;
+    let scenario = match &c.scenario {
+        Scenario::Mix(mc) if c.perm_seed & 8 != 0 => {
+            let mut mc = mc.clone();
+            for f in &mut mc.files {
+                for b in &mut f.blocks {
+                    b.lua = None;
+                }
+            }
+            stripped = Scenario::Mix(mc);
+            &stripped
+        }
+        s => s,
+    };
+    let Some(m) = material(scenario) else { return Verdict::Unspecified("generated source is not accepted by the language's own grammar") };
     probe.class(match &c.scenario {
         Scenario::Mix(_) => "scenario:rule-mix",
         Scenario::Drift(_) => "scenario:drift",
@@ -122,7 +139,10 @@ pub fn check(c: &DetCase, probe: &Probe) -> Verdict {
     // must not matter
     let mut m = m;
     if c.perm_seed & 4 != 0 {
-        let extras: [(&str, &str); 6] = [
+        let extras: [(&str, &str); 8] = [
+            // directories whose names look like supported files
+            ("vendor/chart.js/README", "no tags here # <block>\n"),
+            ("docs.md/notes.txt", "x </block>\n"),
             ("Makefile", "# <block name=\"mk\" keep-sorted>\nb\na\n# </block>\n"),
             ("LICENSE", "Permission is hereby granted # <block>\n"),
             ("AUTHORS", "someone </block>\n"),
@@ -136,7 +156,7 @@ pub fn check(c: &DetCase, probe: &Probe) -> Verdict {
                 m.scan_paths.push(p.to_string());
             }
         }
-        probe.class("with-whole-name-and-unsupported-files");
+        probe.class("with-whole-name-and-unsupported-files-and-file-like-directories");
     }
     let mut baseline: Option<(String, String)> = None; // (validate, list)
     let mut variants = 0u64;
